@@ -88,6 +88,14 @@ Definition block_ops (img : mem) (b : block) (vs : list N) : N :=
 
 End W.
 
+(* the first k elements on which f is false (search for failing operands; stops early) *)
+Fixpoint first_fails {A} (k : nat) (f : A -> bool) (l : list A) : list A :=
+  match k, l with
+  | O, _ => []
+  | _, [] => []
+  | S k', x :: r => if f x then first_fails k f r else x :: first_fails k' f r
+  end.
+
 (* mirror check: the Python copy of a spec (harness/fjverif/stl_specs.py) gives the same answer *)
 Definition res_eqb (a b : option (list N * N)) : bool :=
   match a, b with
